@@ -88,7 +88,8 @@ func handleExec(r *rig, raw []byte, effect func() bool) execFn {
 		if v, why := classify(err); v != "" {
 			return v, why
 		}
-		if r.peer.Outbox() > 0 || (effect != nil && effect()) {
+		pulls := r.h.VerifDrainPullRequests()
+		if r.peer.Outbox() > 0 || pulls > 0 || (effect != nil && effect()) {
 			return "accept", ""
 		}
 		return "ignore", ""
@@ -142,6 +143,9 @@ func prepFrame(c *Case, r *rig, rnd *rand.Rand) *prepared {
 	case "short":
 		raw = protocol.VerifLenPrefixed(frame)
 		binary.BigEndian.PutUint32(raw, uint32(len(frame)+100))
+	case "max":
+		raw = protocol.VerifLenPrefixed(frame)
+		binary.BigEndian.PutUint32(raw, 8*1024*1024)
 	case "overmax":
 		raw = protocol.VerifLenPrefixed(frame)
 		binary.BigEndian.PutUint32(raw, 8*1024*1024+1)
@@ -383,6 +387,21 @@ func prepMsg(c *Case, r *rig, rnd *rand.Rand) *prepared {
 		return p
 	case cFlipKey, cFlipKeysPackage:
 		payload = r.msgKey(rnd, c, code)
+		signer := r.addr(kGod)
+		if c.s("sig") == "stranger" {
+			signer = r.addr(kStranger)
+		}
+		if code == cFlipKey {
+			had := r.keys.GetPublicFlipKey(signer) != nil
+			effect = func() bool { return !had && r.keys.GetPublicFlipKey(signer) != nil }
+		} else {
+			pk := new(types.PrivateFlipKeysPackage)
+			if err := pk.FromBytes(payload); err == nil {
+				h128 := pk.Hash128()
+				had := r.keys.Has(h128)
+				effect = func() bool { return !had && r.keys.Has(h128) }
+			}
+		}
 	case cBatchPush, cBatchFlipKey:
 		payload = r.msgBatch(rnd, c, code)
 	case cPush, cPull:
@@ -546,7 +565,7 @@ func (r *rig) msgProposeBlock(rnd *rand.Rand, c *Case) ([]byte, *types.BlockProp
 	prop := &types.BlockProposal{Block: b}
 	switch c.s("proof") {
 	case "garbage":
-		prop.Proof = rbytes(rnd, 81)
+		prop.Proof = rbytes(rnd, 129)
 	case "valid":
 		prop.Proof = r.tpl.proof
 	}
@@ -577,7 +596,7 @@ func (r *rig) msgProposeProof(rnd *rand.Rand, c *Case) []byte {
 	case "short":
 		p.Proof = rbytes(rnd, 10)
 	case "garbage":
-		p.Proof = rbytes(rnd, 81)
+		p.Proof = rbytes(rnd, 129)
 	case "valid":
 		p.Proof = r.tpl.proof
 	}
@@ -1045,13 +1064,14 @@ func prepBlock(c *Case, r *rig, rnd *rand.Rand) *prepared {
 			if v, why := classify(r.peer.HandleStream(raw)); v != "" {
 				return v, why
 			}
-			if err := vb.FullSync(r.n.Chain, r.n.Ipfs, r.n.App, collector.NewStatsCollector()); err != nil {
+			err := vb.FullSync(r.n.Chain, r.n.Ipfs, r.n.App, collector.NewStatsCollector())
+			if r.n.Chain.Head.Height() != head {
+				return "accept", "" // the block was inserted (the batch then ends on the missing second header)
+			}
+			if err != nil {
 				return "rejectValidation", err.Error()
 			}
-			if r.n.Chain.Head.Height() == head {
-				return "ignore", "deferred (no certificate)"
-			}
-			return "accept", ""
+			return "ignore", "deferred (no certificate)"
 		}
 	default:
 		panic("unknown block entry " + c.s("entry"))
